@@ -556,7 +556,41 @@ func (a *stateAnalysis) outcomeOf(callee *ssa.Function, single stateSet, bind bi
 		}
 		return s, s != 0
 	}
-	inMap := forward(callee, L, single, ins, edge)
+	// nested state-reading helpers (a wrapper around checkState): their own
+	// outcome tables refine the edges inside this callee
+	okey := fmt.Sprintf("%p|%d|%s", callee, single, bind.key(callee))
+	if outcomeInProgress[okey] {
+		return ocSuccess | ocFailure
+	}
+	outcomeInProgress[okey] = true
+	defer delete(outcomeInProgress, okey)
+	pre := func(s stateSet, i ssa.Instruction) stateSet {
+		if c, ok := i.(ssa.CallInstruction); ok {
+			if v, ok := i.(ssa.Value); ok {
+				cal := staticCallee(c)
+				if cal != nil && cal.Blocks != nil && inModule(cal) && a.touches[cal] && !a.writes[cal] {
+					nb := a.bindArgs(cal, c, bind)
+					m := outcomes[v]
+					if m == nil {
+						m = map[stateSet]outcomeSet{}
+						outcomes[v] = m
+					}
+					for b := 0; b < 5; b++ {
+						one := stateSet(1 << uint(b))
+						if s&one != 0 {
+							if _, done := m[one]; !done {
+								m[one] = a.outcomeOf(cal, one, nb)
+							}
+						}
+					}
+				}
+			}
+		}
+		return ins(s, i)
+	}
+	inMap := forward(callee, L, single, pre, edge)
+	// what is known about the returned value on the path to each return
+	vf := mustFlow(callee, facts{}, nil, func(f facts, b *ssa.BasicBlock, s int) facts { return f.with(valueEdgeFacts(b, s)...) })
 	var oc outcomeSet
 	for _, b := range callee.Blocks {
 		if inMap[b] == nil {
@@ -566,10 +600,23 @@ func (a *stateAnalysis) outcomeOf(callee *ssa.Function, single stateSet, bind bi
 		if !ok {
 			continue
 		}
-		oc |= classifyResult(ret.Results[idx], b, inMap, map[ssa.Value]bool{})
+		rv := unspill(ret.Results[idx])
+		if f, ok := vf.at(ret); ok && rv.Name() != "" {
+			if f.has("nonnil:"+rv.Name()) || f.has("false:"+rv.Name()) {
+				oc |= ocFailure
+				continue
+			}
+			if f.has("nil:"+rv.Name()) || f.has("true:"+rv.Name()) {
+				oc |= ocSuccess
+				continue
+			}
+		}
+		oc |= classifyResult(rv, b, inMap, map[ssa.Value]bool{})
 	}
 	return oc
 }
+
+var outcomeInProgress = map[string]bool{}
 
 // classifyResult: may the returned value be nil/true (success) or
 // non-nil/false (failure)? Phi edges from unreachable predecessors are ignored.
